@@ -194,7 +194,10 @@ def _suff():
 def _split():
     return runner.PureSpec(
         prop="C13", module="Split", trace_module="SplitTrace", driver="drivers.split",
-        cfg={"quick": "Split_quick.cfg", "thorough": "Split_thorough.cfg"}, sample={"quick": 2500, "thorough": None}, variants=lambda tier, r, cin: ["-"],
+        cfg={"quick": "Split_quick.cfg", "thorough": "Split_thorough.cfg"}, sample={"quick": 2500, "thorough": None},
+        # routing cases: local midnights west and east of UTC (east of it the UTC date of a local midnight is the day before)
+        variants=lambda tier, r, cin: (["-"] if cin["kind"] != "route" else ["America/Chicago", "Asia/Kolkata", "Europe/Berlin"] if tier == "thorough"
+                                      else ["America/Chicago", r.choice(["Asia/Kolkata", "Europe/Berlin"])]),
         spec_files=["Split.tla", "SplitDefs.tla", "SplitTrace.tla", "Cal.tla"],
         always=lambda b: 'kind |-> "select"' in b,
         rule="TLC enumerates all 16 allow-flag vectors x season support {0,29,30,200 days} x weekend support {0,7,8,60} (x gaussian reduction), "
@@ -246,9 +249,9 @@ def _metrics():
         prop="C16", module="Metrics", trace_module="MetricsTrace", driver="drivers.metrics",
         cfg={"quick": "Metrics_quick.cfg", "thorough": "Metrics_thorough.cfg"}, sample={"quick": 5000, "thorough": 80000}, variants=lambda tier, r, cin: ["-"],
         spec_files=["Metrics.tla", "MetricsDefs.tla", "MetricsTrace.tla", "Rat.tla"], extra_cases=extra,
-        always=lambda b: 'kind |-> "stats"' not in b,
-        rule="TLC enumerates every observed / predicted pair of length 2..3 over small integers with a non-finite marker, parameter counts 1..3, the "
-             "4 x 4 hourly gate table and 9 stored-metrics cases (real fits of 3 families x 3 baselines); seeded longer integer series (5..12) are added; "
+        always=lambda b: 'kind |-> "stats"' not in b or 'drift |-> TRUE' in b,
+        rule="TLC enumerates every observed / predicted pair of length 2..3 over small integers with a non-finite marker, parameter counts 1..3, all 1,296 residual patterns of length 4 against a constant observed series (every autocorrelation regime, n' below and above 1; always replayed), the "
+             "hourly gate table and 9 stored-metrics cases (real fits of 3 families x 3 baselines); seeded longer integer series (5..12) are added; "
              "every statistic of the real BaselineMetrics / ReportingMetrics is snapped to a rational and compared with Rat.tla arithmetic by TLC",
         assumptions=["square-rooted quantities are compared squared; values are snapped with Fraction.limit_denominator and must be exact to 1e-9",
                      "lag-1 autocorrelation: rho^2 and the sign of rho are decided; n' through ((n-n')/(n+n'))^2 = rho^2",
